@@ -399,17 +399,18 @@ func (s *sweep) final(reason string) {
 const (
 	fFIN = iota
 	fRST
-	fSilence       // peer goes silent (both directions stalled): a protocol timer must cover it
-	fSelectRefused // active only
-	fSelectSilent  // never answers / never sends the select: T6 or T7
-	fMidFrameStall // half a frame, then nothing: T8
-	fDialRefuse    // n refused dials (active) / listen errors (passive) before the next success
-	fDialBlackhole // dial that hangs until the connect timeout
-	fWriteStall    // the peer stops reading: our next write blocks until the write timeout
+	fSilence         // peer goes silent (both directions stalled): a protocol timer must cover it
+	fSelectRefused   // active only
+	fSelectSilent    // never answers / never sends the select: T6 or T7
+	fMidFrameStall   // half a frame, then nothing: T8
+	fDialRefuse      // n refused dials (active) / listen errors (passive) before the next success
+	fDialBlackhole   // dial that hangs until the connect timeout
+	fWriteStall      // the peer stops reading: our next write blocks until the write timeout
+	fReselectSilence // the peer deselects and re-selects the session on the same connection, then goes silent: the linktest of the NEW session must cover it
 	nFaults
 )
 
-var faultNames = []string{"fin", "rst", "silence", "select-refused", "select-silent", "mid-frame-stall", "dial-refuse", "dial-blackhole", "write-stall"}
+var faultNames = []string{"fin", "rst", "silence", "select-refused", "select-silent", "mid-frame-stall", "dial-refuse", "dial-blackhole", "write-stall", "reselect-then-silence"}
 
 type faultSpec struct {
 	Kind  int
@@ -430,6 +431,7 @@ type seededScn struct {
 	NoLinktest     bool // linktest off: every fault must be covered by another timer
 	WriteTO        time.Duration
 	ShortCtx       bool // the application's sends carry a context shorter than the write timeout
+	T5Cut          bool // T5 is lowered at run time (UpdateConfigOptions) after the second failed attempt of an outage
 	Faults         []faultSpec
 	CloseEnd       bool
 }
@@ -457,6 +459,9 @@ type seeded struct {
 	cover          time.Duration
 	bound          time.Duration
 	lastFaultArmed bool
+	failRun        int
+	t5CutAt        time.Duration // when T5 was lowered at run time (-1 = not)
+	newT5          time.Duration
 }
 
 func genSeeded(t *core.Tape) seededScn {
@@ -476,6 +481,7 @@ func genSeeded(t *core.Tape) seededScn {
 	sc.NoLinktest = t.Choose("scn", 3) == 2
 	sc.WriteTO = []time.Duration{300 * time.Millisecond, 150 * time.Millisecond}[t.Choose("scn", 2)]
 	sc.ShortCtx = t.Choose("scn", 2) == 1
+	sc.T5Cut = t.Choose("scn", 3) == 0
 	if sc.NoLinktest {
 		sc.Linktest = 0
 	}
@@ -488,7 +494,7 @@ func genSeeded(t *core.Tape) seededScn {
 		if f.Kind == fDialBlackhole && !sc.Active {
 			f.Kind = fDialRefuse
 		}
-		if f.Kind == fSilence && sc.NoLinktest {
+		if (f.Kind == fSilence || f.Kind == fReselectSilence) && sc.NoLinktest {
 			f.Kind = fWriteStall // plain silence is covered by the linktest only
 		}
 		sc.Faults = append(sc.Faults, f)
@@ -507,6 +513,7 @@ func buildSeeded() core.BuildFunc {
 		sc := s.sc
 		s.active = sc.Active
 		s.closedAt = -1
+		s.t5CutAt = -1
 		s.r = rig.New(w, rig.Opts{Active: sc.Active, Equip: !sc.Active, T3: sc.T3, T5: sc.T5, T6: sc.T6, T7: sc.T7, T8: sc.T8, Linktest: sc.Linktest, LinkThreshold: sc.Thr,
 			BackoffInit: sc.Init, BackoffMult: sc.Mult, CloseTimeout: time.Second, ConnectTimeout: sc.ConnTO, Suppress: &sc.Suppress, WriteTimeout: &sc.WriteTO})
 		r := s.r
@@ -526,6 +533,21 @@ func buildSeeded() core.BuildFunc {
 			out := 0
 			if len(s.plan) > 0 {
 				out, s.plan = s.plan[0], s.plan[1:]
+			}
+			if out != 0 {
+				s.failRun++
+				if sc.T5Cut && s.failRun == 2 && s.t5CutAt < 0 {
+					s.newT5 = sc.T5 / 8
+					if s.newT5 < 2*time.Millisecond {
+						s.newT5 = 2 * time.Millisecond
+					}
+					if err := r.C.UpdateConfigOptions(hsms.WithT5(s.newT5)); err == nil {
+						s.t5CutAt = w.Now()
+						w.Fault("t5-lowered-during-outage")
+					}
+				}
+			} else {
+				s.failRun = 0
 			}
 			switch out {
 			case 1:
@@ -744,6 +766,17 @@ func (s *seeded) onOpen(c *refhsms.Conn) {
 				case fSilence:
 					c.L.Stall(true, 0)
 					c.L.Stall(false, 0)
+				case fReselectSilence:
+					c.SendFrame(refhsms.Header{Session: 0xFFFF, SType: refhsms.STDeselectReq, Sys: s.r.P.NextSys()}, nil)
+					w.After(5*time.Millisecond, "reselect", func() {
+						if c.Alive() {
+							c.SendFrame(refhsms.Header{Session: 0xFFFF, SType: refhsms.STSelectReq, Sys: s.r.P.NextSys()}, nil)
+						}
+						w.After(5*time.Millisecond, "silence", func() {
+							c.L.Stall(true, 0)
+							c.L.Stall(false, 0)
+						})
+					})
 				case fWriteStall:
 					// the peer's receive window closes; it keeps its own direction open and stays quiet
 					c.L.SetCap(8)
@@ -837,6 +870,27 @@ func (s *seeded) final(reason string) {
 			}
 			gap := a.start - prevEnd
 			want := refBackoff(sc.Init, sc.Mult, sc.T5, k)
+			if s.t5CutAt >= 0 && prevEnd >= s.t5CutAt {
+				// T5 was lowered while this outage lasted: every later wait is bounded by the NEW value
+				// (the exact curve after a change is the implementation's business)
+				if gap > s.newT5+time.Microsecond {
+					w.Fail("BACKOFF", "attempt #%d started %v after the previous failure at %v, but T5 had been lowered to %v at %v (UpdateConfigOptions): delays never exceed T5", i, gap, prevEnd, s.newT5, s.t5CutAt)
+
+					return
+				}
+				k++
+				if a.ok {
+					k, prevEnd = 0, -1
+					if connIdx < len(s.conns) {
+						prevEnd = s.conns[connIdx].L.A.ClosedAt
+						connIdx++
+					}
+				} else {
+					prevEnd = a.end
+				}
+
+				continue
+			}
 			if gap > sc.T5 {
 				w.Fail("BACKOFF", "attempt #%d started %v after the previous failure: exceeds T5=%v (initial %v, multiplier %g)", i, gap, sc.T5, sc.Init, sc.Mult)
 
